@@ -18,7 +18,7 @@ if ! go build -tags verif -o "$BUILD/vw-$ID" ./cmd/vw >"$LOG" 2>&1; then
   echo "BUILD-FAILED property=$ID (see $LOG)"; tail -20 "$LOG"; exit 3
 fi
 case "$ID" in
-  C08)
+  C08|C09)
     if ! go build -tags verif -o "$BUILD/vwfresh-$ID" ./cmd/vwfresh >>"$LOG" 2>&1; then
       echo "BUILD-FAILED (vwfresh) property=$ID (see $LOG)"; tail -20 "$LOG"; exit 3
     fi
@@ -32,7 +32,7 @@ case "$ID" in
     export VW_RACE_EXE="$BUILD/vw-$ID-race" ;;
 esac
 case "$ID" in
-  C02|C15|C17|C18|C20|C13)
+  C02|C03|C15|C17|C18|C20|C13)
     if ! go build -o "$BUILD/par-$ID" github.com/akalin/gopar/cmd/par >>"$LOG" 2>&1; then
       echo "BUILD-FAILED (par) property=$ID (see $LOG)"; tail -20 "$LOG"; exit 3
     fi
